@@ -18,7 +18,7 @@ VERSIONS = list(range(1, 12))
 
 class World:
     """all symbolic inputs of one scenario family"""
-    def __init__(self, E, kind):
+    def __init__(self, E, kind, focus=False):
         self.E = E
         self.kind = kind                      # incoming event kind: member / message / state / aliases / redaction / third_party_invite / power_levels / create
         self.cons = []
@@ -40,6 +40,7 @@ class World:
         # ---- power levels event in state
         self.pl_present = z3.Bool('pl_present')
         self.pl = self._pl_content('pl')
+        self.pl_new = self._pl_content('npl') if kind == 'power_levels' else None    # content of an incoming m.room.power_levels event
         # ---- incoming event
         self.ev_membership = Field('ev_membership', 'enum', MEMBERSHIPS); self.cons += self.ev_membership.cons
         self.ev_authorised_via = Field('ev_join_authorised', 'bool'); self.cons += self.ev_authorised_via.cons   # absent / valid user (= authoriser) / malformed
@@ -48,6 +49,32 @@ class World:
         self.state_key_kind = z3.BitVec('state_key_kind', 8)    # 0 none, 1 "", 2 target user id, 3 "@zz" (not a user id), 4 sender's server name, 5 other server name
         self.cons.append(z3.ULE(self.state_key_kind, 5))
         self.redacts_same_server = z3.Bool('redacts_same_server')
+        if focus:
+            self._pl_focus()
+
+    def _pl_focus(self):
+        """incoming m.room.power_levels: ONE property of the content (selected by the symbolic `pl_focus`: one of the seven
+        integer fields, `events`, `notifications` or `users`) differs arbitrarily between the current and the new content,
+        everything else is unchanged.  The selector is symbolic, so paths add up over the properties instead of multiplying."""
+        k = z3.BitVec('pl_focus', 8)
+        self.pl_focus = k
+        self.cons.append(z3.ULE(k, 9))
+        cur, new = self.pl, self.pl_new
+        for i, f in enumerate(PL_FIELDS):
+            c, n = cur['ints'][f], new['ints'][f]
+            # unchanged integer fields are present, JSON integers, equal
+            self.cons.append(z3.Implies(k != i, z3.And(c.ok(), n.ok(), c.v == n.v, z3.Not(c.is_str), z3.Not(n.is_str))))
+        for j, (which, keep) in enumerate([('events', False), ('notifications', False), ('users', True)]):
+            cm, nm = cur[which], new[which]
+            same = [cm['tag'] == nm['tag'], cm['tag'] == (1 if keep else 0)]
+            for ce, ne in zip(cm['entries'], nm['entries']):
+                same += [ce['present'] == ne['present'], ce['v'] == ne['v'], z3.Not(ce['is_str']), z3.Not(ne['is_str'])]
+            self.cons.append(z3.Implies(k != 7 + j, z3.And(*same)))
+        # users entries of the roles that play no part in a power-levels change stay out of the maps
+        for mp in (cur['users'], new['users']):
+            for e in mp['entries']:
+                if e['name'] in ('authoriser', 'creator'):
+                    self.cons.append(z3.Not(e['present']))
 
     def _user(self, n):
         u = SymUser(n); self.cons += u.cons
@@ -139,6 +166,7 @@ def build(C, E, w, version_rules):
     join_rules_event = mk_event(w.creator, tet('RoomJoinRules'), content('m.room.join_rules', {'RoomJoinRulesContentJoinRule': h_join_rule}), other_id,
                                 lambda: [(TRUE, some(cs(b'')))])
     pl_event = mk_event(w.creator, tet('RoomPowerLevels'), content('m.room.power_levels', {}, {'pl': w.pl}), other_id, lambda: [(TRUE, some(cs(b'')))])
+    w.pl_event_obj = pl_event
 
     # --- fetch_state
     reads = []
@@ -206,6 +234,10 @@ def build(C, E, w, version_rules):
                  'third_party_invite': tet('RoomThirdPartyInvite'), 'power_levels': tet('RoomPowerLevels'), 'create': tet('RoomCreate')}[kind]
         if kind == 'create':
             handlers.update(create_content.data['handlers'])
+        if kind == 'power_levels':
+            extra['pl'] = w.pl_new
+            w.pl_new['events']['entries'][0]['key'] = etype
+            w.pl_new['events']['entries'][1]['key'] = tet('RoomName')
     # the `events` power-level map is keyed by event type: entry 0 is the incoming event's type, entry 1 another type
     w.pl['events']['entries'][0]['key'] = etype
     w.pl['events']['entries'][1]['key'] = tet('RoomName')
@@ -229,20 +261,59 @@ def run_family(C, job):
     E.alloc_const = lambda v: alloc_const(E, v)
     label = f'v{version}:{kind}'
     rules, _ = rules_for_version(C, E, version)
-    w = World(E, kind)
+    unit = kind == 'power_levels_unit'
+    w = World(E, 'power_levels' if unit else kind, focus=unit)
     install(C, E, w)
     ev, fetch_obj, reads = build(C, E, w, rules)
     st = E.new_state()
     rref = E.root_ref(st, rules)
-    f = E.find_func('event_auth::auth_check')
     spec_ok, applicable = SPEC.accepts(w, version)
-    # explore only the part of the input space the claim is about (well-formed state): prunes the malformed-state forks
-    outs = E.run_func(f, [rref, ev, fetch_obj], list(w.cons) + [applicable], st=st)
+    extra = []
+    if kind == 'power_levels':
+        # rule 9 is decided compositionally: here check_room_power_levels is replaced by an arbitrary verdict `rule9_accepts`
+        # and the arguments it is called with are recorded, so this family decides that auth_check consults it exactly
+        # when rules 1-8 pass, follows its verdict, and hands it the sender's level and the power levels of the state;
+        # the family `power_levels_unit` decides that the real check_room_power_levels implements rule 9 for such arguments.
+        def summary(E_, st_, callee, a, m):
+            newv, curv = E_.deref(st_, a[0]), E_.deref(st_, a[1])
+            if not (isinstance(newv, Obj) and newv.kind == 'PLEvent' and newv.data['event'].data['content'].data.get('pl') is w.pl_new):
+                raise Inconclusive('check_room_power_levels called on something else than the incoming event')
+            if curv.variant == 'Some':
+                c = E_.deref(st_, curv.fields[0])
+                if not (isinstance(c, Obj) and c.kind == 'PLEvent' and c.data['event'].data['content'].data.get('pl') is w.pl):
+                    raise Inconclusive('check_room_power_levels called with something else than the power levels of the state')
+            lvl = int_val(E_.deref(st_, a[3]))
+            st_.note(('rule9', lvl, curv.variant == 'Some'))
+            return [(r9, ok(UNIT)), (z3.Not(r9), err(Obj('String', E_.const_str(b'rejected by the m.room.power_levels rules'))))]
+        r9 = z3.Bool('rule9_accepts')
+        E.overrides.insert(0, (re.compile(r'^event_auth::check_room_power_levels$'), summary))
+    if unit:
+        f = E.find_func('event_auth::check_room_power_levels')
+        plS = z3.BitVec('sender_level', 64)
+        # the level handed over is the one rules 1-8 computed for the sender; those rules pass (otherwise rule 9 is not reached)
+        extra = [plS == w.oracle['plS'], w.oracle['prefix']]
+        outs = []
+        newpl = Obj('PLEvent', {'event': ev})
+        for present in (True, False):
+            cur = some(Obj('PLEvent', {'event': w.pl_event_obj})) if present else NONE
+            outs += E.run_func(f, [newpl, cur, rref, mk_int(plS)], list(w.cons) + [applicable, w.pl_present == present] + extra, st=st)
+    else:
+        f = E.find_func('event_auth::auth_check')
+        # explore only the part of the input space the claim is about (well-formed state): prunes the malformed-state forks
+        outs = E.run_func(f, [rref, ev, fetch_obj], list(w.cons) + [applicable], st=st)
     C.absorb(E)
+    qspec, refine, oblig = spec_ok, [], []
+    if kind == 'power_levels':
+        qspec = z3.And(w.oracle['prefix'], r9)
+        refine = [r9 == SPEC.power_levels_rules(w, version, w.oracle['R'], w.oracle['plS'], [])]
+        for o in outs:
+            for n in o.st.notes:
+                if n[0] == 'rule9':
+                    oblig.append(z3.And(o.cond(), z3.Or(n[1] != w.oracle['plS'], w.pl_present != n[2])))
     acc = [o.cond() for o in outs if o.kind == 'ret' and o.value.variant == 'Ok']
     rej = [o.cond() for o in outs if o.kind == 'ret' and o.value.variant == 'Err']
     pan = [o for o in outs if o.kind != 'ret']
-    base = list(w.cons) + [applicable] + list(E.axioms)
+    base = list(w.cons) + [applicable] + extra + list(E.axioms)
     C.bounds[label] = {'paths': len(outs), 'accepting': len(acc), 'rejecting': len(rej), 'panic': len(pan)}
 
     def report(qname, m, what):
@@ -269,17 +340,27 @@ def run_family(C, job):
     excl = []
     for qname, cs, negate in (('accepted => the spec accepts', acc, True), ('rejected => the spec rejects', rej, False)):
         for _ in range(4):
-            fs = base + excl + [z3.Or(*cs) if cs else z3.BoolVal(False), z3.Not(spec_ok) if negate else spec_ok]
-            r, m = C.solve(f'{label}: {qname}', fs)
+            r, m = C.solve_split(f'{label}: {qname}', base + excl + [z3.Not(qspec) if negate else qspec], cs)
+            if r == 'sat' and refine:
+                # the abstract verdict of rule 9 was free: keep only counterexamples in which it is the real rule-9 verdict
+                r, m = C.solve_split(f'{label}: {qname} (rule-9 verdict concretised)', base + excl + refine + [z3.Not(qspec) if negate else qspec], cs)
             if r != 'sat':
                 break
             role = report(qname, m, 'verdict differs from the authorization rules')
             if role is None:
                 break
             excl.append(z3.Not(SPEC.role_formula(w, role, version)))
+    if oblig:
+        r, m = C.solve_split(f'{label}: rule 9 is handed the sender\'s power level and the power levels of the state', base, oblig)
+        if r == 'sat':
+            r, m = C.solve_split(f'{label}: rule 9 arguments (verdict concretised)', base + refine + [z3.Or(*[z3.And(c, z3.Not(spec_ok)) for c in acc] + [z3.And(c, spec_ok) for c in rej])], oblig)
+            if r == 'sat':
+                report('rule 9 arguments', m, 'rule 9 is evaluated with the wrong sender level / current power levels')
+            else:
+                C.inconclusive.append(f'{label}: rule 9 receives a level or event that differs from the specification\'s, but no scenario where it changes the verdict was found')
     # witnesses
     for k, cs in (('accept', acc), ('reject', rej)):
-        r, m = C.solve(f'{label}: witness {k}', base + [z3.Or(*cs) if cs else z3.BoolVal(False)])
+        r, m = C.solve(f'{label}: witness {k}', base + refine + [z3.Or(*cs) if cs else z3.BoolVal(False)])
         if r == 'sat':
             vec = SPEC.concretise(w, m, version)
             res = C.native(vec)
@@ -301,14 +382,21 @@ def body(C):
     C.engine(KEYS, N=8)
     C.extra[('events', 'dumped')] = C.dump('events', want_mir=False)      # only the item index of ruma-events (enum orders)
     C.build_replayer(['stateres'])
-    kinds = ['member', 'message', 'state', 'aliases', 'redaction', 'third_party_invite']
+    kinds = ['member', 'message', 'state', 'aliases', 'redaction', 'third_party_invite', 'power_levels', 'power_levels_unit']
     versions = VERSIONS
     if os.environ.get('VERIF_VERSIONS'):
         versions = [int(x) for x in os.environ['VERIF_VERSIONS'].split(',')]
     if os.environ.get('VERIF_KINDS'):
         kinds = os.environ['VERIF_KINDS'].split(',')
-    jobs = [(k, v) for k in kinds for v in versions]
-    C.assumptions += SPEC.ASSUMPTIONS
+    # rule 9 itself varies with the room version only through limit_notifications_power_levels (v6) and
+    # integer_power_levels (v10): the quick tier runs its unit family on one version per combination (+ v11), thorough on all
+    unit_versions = versions if (C.tier == 'thorough' or os.environ.get('VERIF_VERSIONS')) else [v for v in versions if v in (1, 6, 10, 11)]
+    jobs = [(k, v) for k in kinds for v in (unit_versions if k == 'power_levels_unit' else versions)]
+    jobs.sort(key=lambda j: j[0] != 'power_levels_unit')      # longest jobs first
+    C.assumptions += SPEC.ASSUMPTIONS + [
+        'm.room.power_levels events (rule 9) are decided compositionally: family power_levels runs auth_check with check_room_power_levels replaced by an arbitrary verdict and decides that it is consulted exactly when rules 1-8 pass, with the sender\'s level and the power levels of the state; family power_levels_unit runs the real check_room_power_levels for such arguments against rule 9',
+        'power_levels_unit: ONE property of the content (selected by a symbolic index: one of the seven integer fields, events, notifications, users) differs arbitrarily between current and new content; the others are present (events/notifications: absent) and unchanged; users entries for sender and target only; events keys: the event\'s own type and one other',
+    ]
     parallel_map(C, run_family, jobs)
 
 
